@@ -560,6 +560,23 @@ int main(int argc, char **argv)
         rep().stat("cases_from_mined_literals", added);
     }
     {
+        // column partitions: every (ncols, nblock) with nblock 1..ncols+1 -- the blocks of columns must tile 0..ncols-1 exactly for
+        // every pair, not only for the block counts 1, 2, 3, ncols of the sweep above
+        int mode = which == "C03" ? M_NTT : which == "C04" ? M_INTT : M_EXT;
+        long long added = 0;
+        for (u64 ncols = 4; ncols <= (th ? 24ULL : 12ULL); ncols++)
+            for (u64 bl = 1; bl <= ncols + 1; bl++)
+                for (u64 n : {4ULL, 8ULL})
+                    for (int dst = 0; dst < 2; dst++)
+                        for (unsigned t : {1u, 3u})
+                        {
+                            if (n == 8 && (dst == 1 || t == 1)) continue;
+                            cases.push_back({mode, n, n, mode == M_EXT ? 2 * n : 0, ncols, 2, bl, 0, dst, t, 0});
+                            added++;
+                        }
+        rep().stat("column_partition_cases", added);
+    }
+    {
         // large sizes
         std::vector<u64> big = th ? std::vector<u64>{2048, 8192, 16384, 65536, 262144, 1048576} : std::vector<u64>{8192, 16384, 65536};
         if (args.num("light", 0)) big = {8192}; // sanitizer builds
@@ -580,6 +597,23 @@ int main(int argc, char **argv)
                                 if (n <= 65536) cases.push_back({mode, 2 * n, n, 0, ncols, ph, bl, (int)(ph & 1), dst, t, 0}); // object domain above the size
                             }
                         }
+    }
+    {
+        // every pass schedule of the sizes whose twiddles are generic 64-bit roots (n >= 128: below, every twiddle is a power of
+        // two): each nphase 1..log2 n gives another grouping of the butterfly levels into passes, incl. passes of a single level
+        int mode = which == "C03" ? M_NTT : which == "C04" ? M_INTT : M_EXT;
+        long long added = 0;
+        for (u64 n : {128ULL, 256ULL, 8192ULL})
+            for (u64 ph = 1; ph <= lg(n); ph++)
+            {
+                if (args.num("light", 0) && n > 256) continue;
+                if (n == 8192 && ph <= 4) continue; // in the sweep above
+                u64 ncols = 2, bl = (ph & 1) ? 1 : 2;
+                if (mode == M_EXT) cases.push_back({M_EXT, n, n, 2 * n, ncols, ph, bl, 0, (int)(ph & 1), 3, 0});
+                else cases.push_back({mode, n, n, 0, ncols, ph, bl, 0, (int)(ph & 1), 3, 0});
+                added++;
+            }
+        rep().stat("pass_schedule_cases", added);
     }
     {
         // non-initial object states: the same measured call after another call on the object
@@ -695,6 +729,14 @@ int main(int argc, char **argv)
                                 added++;
                             }
         rep().stat("cases_with_planted_stage_values", added);
+    }
+    if (args.num("small", 0))
+    {
+        // reduced space for an additional build configuration of the same sources (-DNDEBUG): the small domains only
+        std::vector<Case> keep;
+        for (auto &c : cases)
+            if (c.D <= 8 && c.n <= 8 && c.next <= 16 && c.ncols <= 5 && !c.mis && !c.outer) keep.push_back(c);
+        cases.swap(keep);
     }
     if (args.seed) std::rotate(cases.begin(), cases.begin() + (args.seed % cases.size()), cases.end());
     isolated_for((long)cases.size(), args.jobs, 24, [&](long i) { run_case(cases[i]); }, [&](long i, const ChildResult &r) { report_crash(cases[i], r); }, 300);
